@@ -79,8 +79,10 @@ CHECKS.update({
                   'the independent reader and compared word-for-word with concat_fields(select, select); mismatching meshes must leave an empty audit log',
         text='Bounded symbolic execution of the real combine for all pairs of binary layouts of 3 boxes over <= 2 files (every 5th pair in the quick tier), '
              'renamed files, scattered multi-level layouts and field selections in both CLI (string) and list form; every output word must be the right '
-             'source word (identity), min/max rows assembled from the same sources, the real validator must accept, mismatches refused before any write.',
-        note=TRUST + 'Both inputs list their boxes in the same order.',
+             'source word (identity), min/max rows assembled from the same sources, the real validator must accept, mismatches refused before any write. The magnitude of byte positions is decided separately: combine() runs with the positions '
+             'its worker functions return moved up by one symbolic base (0 <= base <= 2^40) and the written level headers must list base + position (z3).',
+        note=TRUST + 'Both inputs list their boxes in the same order. In the offset-magnitude runs the worker functions are wrapped (stub by contract: K-combine proves that '
+                     'the returned position is where the box header went); integer element types narrower than 64 bits are uninterpreted conversions.',
         design='5 C06'),
     'C07': dict(
         technique='symbolic execution of the real 3D slice with a symbolic position (z3 real) and symbolic payload: the code\'s own comparisons on pos '
